@@ -859,6 +859,7 @@ package expr
 //@ func httpRequestBody
 //@   params a
 //@   property C02
+//@   locals name:string ut:*expr.UserTypeExpr ok:bool payload:*expr.AttributeExpr headers:*expr.MappedAttributeExpr cookies:*expr.MappedAttributeExpr params:*expr.MappedAttributeExpr bodyOnly:bool attr:*expr.AttributeExpr body:*expr.MappedAttributeExpr att:string att#2:*expr.AttributeExpr ut#2:*expr.UserTypeExpr t:expr.UserType ok#2:bool m:[]string ok#3:bool
 //@   opt inline none
 //@   opt loopframes none
 //   -- the ghost records start clear (stated as a hypothesis of the clause, not as a precondition callers must meet)
@@ -878,3 +879,293 @@ package expr
 //@   let bm = ptr(*MappedAttributeExpr, bodyMA)
 //@   let left = ptr(*Object, asObjSpec(bm.AttributeExpr.Type))
 //@   ensures* no.body.only.when.nothing.is.left: old(bodyMA) == 0 && !old(sawObject) && !old(sawUnion) && old(a.Body) == nil && !sawUnion && sawObject && result != nil && typeIs(result.Type, *UserTypeExpr) && result.Type.val == Empty ==> bodyMA != 0 && len(load(left)) == 0
+
+// ---- validation never crashes on a dangling reference (C12) ------------------------------------------
+// Representation invariants of the design model the DSL builds (each is established by the only constructors of
+// the type: NewMappedAttributeExpr/DupMappedAtt/Remap, dsl.Error, dsl.httpError/grpcError, Object.Set). Functions
+// under `opt safety full` assume them of objects they did not create and must establish them at their own stores.
+//@ datainv MappedAttributeExpr.AttributeExpr is.object: value != nil && typeIs(value.Type, *Object) && value.Type.val != nil
+//@ datainv ErrorExpr.AttributeExpr nonnil: value != nil
+//@ datainv HTTPErrorExpr.Response nonnil: value != nil
+//@ datainv HTTPResponseExpr.Parent nonnil: value.val != nil
+//@ datainv elems(*NamedAttributeExpr) nonnil: value != nil
+//@ datainv NamedAttributeExpr.Attribute nonnil: value != nil
+//@ datainv HTTPEndpointExpr.MethodExpr nonnil: value != nil
+//@ datainv Array.ElemType nonnil: value != nil
+//@ datainv RouteExpr.Endpoint nonnil: value != nil
+//@ datainv elems(*HTTPErrorExpr) nonnil: value != nil
+//@ datainv elems(*HTTPResponseExpr) nonnil: value != nil
+//@ datainv elems(*ErrorExpr) nonnil: value != nil
+//@ datainv elems(*FlowExpr) nonnil: value != nil
+//@ datainv elems(*HostExpr) nonnil: value != nil
+//@ datainv elems(*GRPCErrorExpr) nonnil: value != nil
+//@ datainv elems(*ViewExpr) nonnil: value != nil
+//@ datainv GRPCErrorExpr.Response nonnil: value != nil
+//@ datainv GRPCResponseExpr.Parent nonnil: value.val != nil
+//@ datainv GRPCEndpointExpr.MethodExpr nonnil: value != nil
+//   -- the root's API is set (by dsl.API or by RootExpr.WalkSets) before any expression is validated; NewAPIExpr
+//   -- allocates its HTTP and gRPC parts
+//@ datainv RootExpr.API walked: value != nil
+//@ datainv APIExpr.HTTP nonnil: value != nil
+//@ datainv APIExpr.GRPC nonnil: value != nil
+//   -- dsl.Variable gives a host's variables an object type
+//@ datainv HostExpr.Variables is.object: value == nil || (typeIs(value.Type, *Object) && value.Type.val != nil)
+
+// "A design is not accepted when its ... error responses refer to ... errors that do not exist", and evaluation
+// "never panics": Validate of an HTTP error response is free of nil dereferences, failed assertions and index
+// errors for every state of the design the DSL can build, in particular when no error of that name is defined;
+// and a name that matches no error of the endpoint's method leaves an error in the result.
+// The As*/Is* helpers are functions of the data type (no type changes while validating): asObjSpec etc.
+//@ smt (declare-fun asArrSpec (Iface) Int)
+//@ smt (declare-fun methodErrSpec (Int String) Int)
+//@ smt (declare-fun svcErrSpec (Int String) Int)
+//@ smt (declare-fun rootErrSpec (Int String) Int)
+//@ block typeHelpers
+//@   callspec AsObject params dt
+//@       ensures result == ptr(*Object, asObjSpec(dt)) && (typeIs(dt, *Object) ==> asObjSpec(dt) == dt.val)
+//@       modifies nothing
+//@   callspec IsObject params dt
+//@       ensures result == (asObjSpec(dt) != 0)
+//@       modifies nothing
+//@   callspec AsArray params dt
+//@       ensures result == ptr(*Array, asArrSpec(dt))
+//@       modifies nothing
+//@   callspec IsArray params dt
+//@       ensures result == (asArrSpec(dt) != 0)
+//@       modifies nothing
+//@ block modelKept
+//@   unknown_calls_preserve fieldsOf(HTTPErrorExpr), fieldsOf(HTTPResponseExpr), fieldsOf(MappedAttributeExpr), fieldsOf(AttributeExpr), fieldsOf(HTTPEndpointExpr), fieldsOf(ErrorExpr), fieldsOf(NamedAttributeExpr), fieldsOf(Array), fieldsOf(MethodExpr), fieldsOf(RouteExpr), global(Root), global(validated), elems(*NamedAttributeExpr)
+//   -- package state every evaluation starts with: the root expression and the validation memo exist
+//@   requires package.state: Root != nil && validated != nil
+//@ func (*HTTPErrorExpr).Validate
+//@   params e
+//@   property C12
+//@   opt safety full
+//@   opt inline none
+//@   opt loopframes none
+//@   use modelKept
+//@   use typeHelpers
+//@   callspec (*MethodExpr).Error params m name
+//@       ensures result == ptr(*ErrorExpr, methodErrSpec(m, name))
+//@       modifies nothing
+//@   callspec (*HTTPServiceExpr).Error params sv name
+//@       ensures result == ptr(*ErrorExpr, svcErrSpec(sv, name))
+//@       modifies nothing
+//@   callspec (*RootExpr).Error params r name
+//@       ensures result == ptr(*ErrorExpr, rootErrSpec(r, name))
+//@       modifies nothing
+//@   requires e != nil
+//@   let parent = old(e.Response.Parent)
+//@   ensures* dangling.method.error.rejected: typeIs(parent, *HTTPEndpointExpr) && methodErrSpec(old(parent.(*HTTPEndpointExpr).MethodExpr), old(e.Name)) == 0 ==> result != nil && len(result.Errors) > 0
+//@   ensures* dangling.service.error.rejected: typeIs(parent, *HTTPServiceExpr) && svcErrSpec(parent.val, old(e.Name)) == 0 ==> result != nil && len(result.Errors) > 0
+//@   ensures* dangling.api.error.rejected: typeIs(parent, *RootExpr) && rootErrSpec(old(Root), old(e.Name)) == 0 ==> result != nil && len(result.Errors) > 0
+
+// "A design is not accepted when its transport mappings ... refer to attributes ... that do not exist": the
+// walkers validateParams / validateHeadersAndCookies hand every mapped path parameter, query parameter, header
+// and cookie to a closure that must leave an error when the payload has no attribute of that name (Find,
+// abstracted as a function of payload and name); the closures are free of implicit panics.
+//@ smt (declare-fun findAttrSpec (Int String) Int)
+//@ datainv MethodExpr.Payload prepared: value != nil
+//@ func (*HTTPEndpointExpr).validateParams$4
+//@   params name _ _
+//@   property C12
+//@   captures e:*expr.HTTPEndpointExpr verr:*eval.ValidationErrors
+//@   opt safety full
+//@   opt captured private
+//@   unknown_calls_preserve fieldsOf(HTTPEndpointExpr), fieldsOf(MethodExpr), fieldsOf(eval.ValidationErrors)
+//@   callspec (*AttributeExpr).Find params a n
+//@       ensures result == ptr(*AttributeExpr, findAttrSpec(a, n))
+//@       modifies nothing
+//@   requires e != nil && verr != nil
+//@   ensures* missing.path.parameter.rejected: findAttrSpec(old(e.MethodExpr.Payload), name) == 0 ==> len(captured(verr).Errors) > old(len(verr.Errors))
+//@ func (*HTTPEndpointExpr).validateParams$5
+//@   params name _ _
+//@   property C12
+//@   captures e:*expr.HTTPEndpointExpr verr:*eval.ValidationErrors
+//@   opt safety full
+//@   opt captured private
+//@   unknown_calls_preserve fieldsOf(HTTPEndpointExpr), fieldsOf(MethodExpr), fieldsOf(eval.ValidationErrors)
+//@   callspec (*AttributeExpr).Find params a n
+//@       ensures result == ptr(*AttributeExpr, findAttrSpec(a, n))
+//@       modifies nothing
+//@   requires e != nil && verr != nil
+//@   ensures* missing.query.parameter.rejected: findAttrSpec(old(e.MethodExpr.Payload), name) == 0 ==> len(captured(verr).Errors) > old(len(verr.Errors))
+//@ func (*HTTPEndpointExpr).validateHeadersAndCookies$3
+//@   params name elem _
+//@   property C12
+//@   captures e:*expr.HTTPEndpointExpr verr:*eval.ValidationErrors hasBasicAuth:bool
+//@   opt safety full
+//@   opt captured private
+//@   unknown_calls_preserve fieldsOf(HTTPEndpointExpr), fieldsOf(MethodExpr), fieldsOf(eval.ValidationErrors)
+//@   callspec (*AttributeExpr).Find params a n
+//@       ensures result == ptr(*AttributeExpr, findAttrSpec(a, n))
+//@       modifies nothing
+//@   requires e != nil && verr != nil
+//@   ensures* missing.header.rejected: findAttrSpec(old(e.MethodExpr.Payload), name) == 0 ==> len(captured(verr).Errors) > old(len(verr.Errors))
+//@ func (*HTTPEndpointExpr).validateHeadersAndCookies$4
+//@   params name _ _
+//@   property C12
+//@   captures e:*expr.HTTPEndpointExpr verr:*eval.ValidationErrors
+//@   opt safety full
+//@   opt captured private
+//@   unknown_calls_preserve fieldsOf(HTTPEndpointExpr), fieldsOf(MethodExpr), fieldsOf(eval.ValidationErrors)
+//@   callspec (*AttributeExpr).Find params a n
+//@       ensures result == ptr(*AttributeExpr, findAttrSpec(a, n))
+//@       modifies nothing
+//@   requires e != nil && verr != nil
+//@   ensures* missing.cookie.rejected: findAttrSpec(old(e.MethodExpr.Payload), name) == 0 ==> len(captured(verr).Errors) > old(len(verr.Errors))
+//@ func (*HTTPEndpointExpr).validateHeadersAndCookies
+//@   params e
+//@   property C12
+//@   opt safety full
+//@   opt inline none
+//@   use modelKept
+//@   use typeHelpers
+//@   requires e != nil
+//@ func (*HTTPEndpointExpr).validateParams
+//@   params e
+//@   property C12
+//@   opt safety full
+//@   opt inline none
+//@   use modelKept
+//@   use typeHelpers
+//@   requires e != nil
+//@ func (*RouteExpr).Validate
+//@   params r
+//@   property C12
+//@   opt safety full
+//@   opt inline none
+//@   use modelKept
+//@   use typeHelpers
+//   -- HTTPWildcardRegex has exactly one capture group: every submatch has two entries (ASSUMED of the expression's text)
+//@   requires reGroups(HTTPWildcardRegex) == 1
+//@   unknown_calls_preserve global(HTTPWildcardRegex)
+//@   opt loopframes none
+//@   loop 3 invariant submatches: forall i int :: 0 <= i && i < len(ranged(3)) ==> len(ranged(3)[i]) == 2
+//@   requires r != nil
+
+// ---- validation is free of implicit panics (C12) --------------------------------------------------------
+//@ func (*GRPCErrorExpr).Validate
+//@   params e
+//@   property C12
+//@   opt safety full
+//@   opt inline none
+//@   opt loopframes none
+//@   use modelKept
+//@   use typeHelpers
+//@   requires e != nil
+//@ func (*GRPCServiceExpr).Validate
+//@   params svc
+//@   property C12
+//@   opt safety full
+//@   opt inline none
+//@   opt loopframes none
+//@   use modelKept
+//@   use typeHelpers
+//@   requires svc != nil
+//@ func (*HTTPServiceExpr).Validate
+//@   params svc
+//@   property C12
+//@   opt safety full
+//@   opt inline none
+//@   opt loopframes none
+//@   use modelKept
+//@   use typeHelpers
+//@   requires svc != nil
+//@ func (*RootExpr).Validate
+//@   params r
+//@   property C12
+//@   opt safety full
+//@   opt inline none
+//@   opt loopframes none
+//@   use modelKept
+//@   use typeHelpers
+//@   requires r != nil
+//@ func (*SchemeExpr).Validate
+//@   params s
+//@   property C12
+//@   opt safety full
+//@   opt inline none
+//@   opt loopframes none
+//@   use modelKept
+//@   use typeHelpers
+//@   requires s != nil
+//@ func (*FlowExpr).Validate
+//@   params f
+//@   property C12
+//@   opt safety full
+//@   opt inline none
+//@   opt loopframes none
+//@   use modelKept
+//@   use typeHelpers
+//@   requires f != nil
+//@ func (*ServerExpr).Validate
+//@   params s
+//@   property C12
+//@   opt safety full
+//@   opt inline none
+//@   opt loopframes none
+//@   use modelKept
+//@   use typeHelpers
+//@   requires s != nil
+//@ func (*HostExpr).Validate
+//@   params h
+//@   property C12
+//@   opt safety full
+//@   opt inline none
+//@   opt loopframes none
+//@   use modelKept
+//@   use typeHelpers
+//@   requires h != nil
+//@ func (*ServiceExpr).Validate
+//@   params s
+//@   property C12
+//@   opt safety full
+//@   opt inline none
+//@   opt loopframes none
+//@   use modelKept
+//@   use typeHelpers
+//@   requires s != nil
+//@ func (*ErrorExpr).Validate
+//@   params e
+//@   property C12
+//@   opt safety full
+//@   opt inline none
+//@   opt loopframes none
+//@   use modelKept
+//@   use typeHelpers
+//@   requires e != nil
+//@ func (*ValidationExpr).Validate
+//@   params v ctx parent
+//@   property C12
+//@   opt safety full
+//@   opt inline none
+//@   opt loopframes none
+//@   use modelKept
+//@   use typeHelpers
+//@   requires v != nil
+//@ func (*AttributeExpr).Validate
+//@   params a ctx parent
+//@   property C12
+//@   locals verr:*eval.ValidationErrors v:*expr.ValidationExpr o:*expr.Object view:string ok:bool ar:*expr.Array n:string pkgPath:string ut:expr.UserType ok#2:bool meta:[]string ok#3:bool nat:*expr.NamedAttributeExpr elemType:*expr.AttributeExpr u:*expr.Union ut#2:*expr.NamedAttributeExpr rt:*expr.ResultTypeExpr ok#4:bool found:bool v#2:*expr.ViewExpr
+//@   opt safety full
+//@   opt inline none
+//@   use modelKept
+//@   use typeHelpers
+//   -- a user type has an attribute (dsl.Type / ResultType always give it one): ASSUMED of the interface method
+//@   callspec Attribute params ut
+//@       ensures result != nil
+//@       modifies nothing
+//@   requires a != nil
+//@   unknown_calls_preserve fieldsOf(eval.ValidationErrors), fieldsOf(ResultTypeExpr), fieldsOf(ViewExpr), elems(*ViewExpr), mapsOf(MetaExpr)
+//   -- "A design is not accepted when its ... views ... refer to ... views ... that do not exist": an attribute
+//   -- that selects (last "view" meta) a view other than the default one which its result type does not define
+//   -- leaves an error.
+//@   let hasView = inMap(a.Meta, "view") && len(a.Meta["view"]) >= 1
+//@   let selected = a.Meta["view"][len(a.Meta["view"]) - 1]
+//@   let rtype = a.Type.(*ResultTypeExpr)
+//@   loop 1 invariant own.lists: (verr.Errors.arr == 0 || sinceEntry(verr.Errors)) && (verr.Expressions.arr == 0 || sinceEntry(verr.Expressions)) && verr != nil && sinceEntry(verr)
+//@   loop 2 invariant own.lists: (verr.Errors.arr == 0 || sinceEntry(verr.Errors)) && (verr.Expressions.arr == 0 || sinceEntry(verr.Expressions)) && verr != nil && sinceEntry(verr)
+//@   loop 3 invariant own.lists: (verr.Errors.arr == 0 || sinceEntry(verr.Errors)) && (verr.Expressions.arr == 0 || sinceEntry(verr.Expressions)) && verr != nil && sinceEntry(verr)
+//@   loop 4 invariant searching: (forall k int :: 0 <= k && k < len(ranged(4)) ==> ranged(4)[k].Name != view) ==> !found
+//@   ensures* undefined.view.rejected: !old(validated[a]) && a.Type != nil && hasView && typeIs(a.Type, *ResultTypeExpr) && rtype != nil && selected != "default" && (forall k int :: 0 <= k && k < len(rtype.Views) ==> rtype.Views[k].Name != selected) ==> result != nil && len(result.Errors) > 0
